@@ -38,6 +38,8 @@ def build(seed: int, pid: str, ncfg: int) -> Tuple[Dict[str, Any], List[Dict[str
         return {"meta": progs[0]["meta"], "points": {}, "blocks": [], "chops": progs[0]["ops"]}, progs
     if pid == "C01" and rs.chance(0.1):
         geo = camp_row(rs.sub("camps"))
+    elif rs.chance(opts.get("p_pie", 0.05)):
+        geo = P.place_chops(rs.sub("chops"), P.gen_pie(rs.sub("pie")), opts)
     else:
         geo = P.gen_assembly(rs.sub("geo"), opts)
         geo = P.add_curved(rs.sub("curved"), geo, opts)
@@ -67,8 +69,10 @@ def build(seed: int, pid: str, ncfg: int) -> Tuple[Dict[str, Any], List[Dict[str
         # the same assembled mesh is written a second time: as it is (C02: same file again), or after
         # 1-3 vertex moves (C01: still consistent; C04: sizes realised on the new lengths)
         mr = rs.sub("rewrite")
-        moves = [{"index": mr.randrange(8), "d": [round(mr.uniform(-0.22, 0.22), 4) for _ in range(3)]} for _ in range(mr.randint(1, 3))]
-        if pid == "C02" or (pid != "C01" and mr.chance(0.5)):
+        # (addressed by point id, so the same vertices move whatever the add order and block orientation)
+        moves = [{"point": geo["blocks"][0]["corners"][mr.randrange(8)], "d": [round(mr.uniform(-0.22, 0.22), 4) for _ in range(3)]}
+                 for _ in range(mr.randint(1, 3))]
+        if (pid == "C02" and mr.chance(0.6)) or (pid == "C04" and mr.chance(0.5)):
             moves = []
         if pid == "C04" and moves:
             geo["curved"] = {}  # moved end points of declared arcs / polylines would change the curves themselves
@@ -259,7 +263,7 @@ def moved_program(program, parsed_first):
     pts = {k: list(v) for k, v in program["points"].items()}
     for op in program["ops"]:
         if op["op"] == "move_vertex":
-            pid_ = inv.get(op["index"])
+            pid_ = op["point"] if "point" in op else inv.get(op["index"])
             if pid_ is None:
                 return None
             pts[pid_] = [pts[pid_][i] + op["d"][i] for i in range(3)]
